@@ -214,10 +214,20 @@ Fixpoint mk_emops (nc : nat) (Ms : list qmat) (data : list qvec) (sens : option 
       mk_emop (mop M) (madj nc M) d s :: mk_emops nc Ms' data' (option_map (@tl _) sens)
   | _, _ => []
   end.
+(* MLEM multiplies: exact rationals double in size per iteration.  Long runs are
+   therefore checked step by step from the implementation's own previous
+   iterate (each recorded float is a 53-bit rational), short runs in full. *)
+Fixpoint em_stepwise (os : list (@emop Q)) (x : qvec) (tr : list qvec) : bool :=
+  match os, tr with
+  | [], [] => true
+  | o :: os', y :: tr' => vclose y (em_one em_eps o x) && em_stepwise os' y tr'
+  | _, _ => false
+  end.
 Definition check_em (k : case_em) : bool :=
   let ops := mk_emops (ke_nc k) (ke_Ms k) (ke_data k) (ke_sens k) in
-  vsclose (ke_tr k) (em_trace em_eps ops (ke_n k) (ke_x k))
-  && splits_ok (ke_split k) (iter (ke_n k) (em_step em_eps ops) (ke_x k)).
+  em_stepwise (concat (repeat ops (ke_n k))) (ke_x k) (ke_tr k)
+  && (if (ke_n k <=? 3)%nat then vsclose (ke_tr k) (em_trace em_eps ops (ke_n k) (ke_x k)) else true)
+  && splits_ok (ke_split k) (last (ke_tr k) (ke_x k)).
 
 (* ---- steepest descent ---- *)
 Record case_sd := { ks_f : fk; ks_step : Q; ks_tol : Q; ks_proj : pk; ks_x : qvec; ks_n : nat;
